@@ -59,6 +59,59 @@ fn punch<'a>(t: &Term<'a>, depth: usize, rng: &mut Rng, prob: usize, holes: &mut
     Term { source_range: None, variant: v }
 }
 
+// a near-miss of `t`: one small structural change (for pairs that are almost, but not, equal)
+fn mutate<'a>(t: &Term<'a>, rng: &mut Rng) -> Term<'a> {
+    use Variant::*;
+    let r = |x: &Rc<Term<'a>>, rng: &mut Rng| Rc::new(mutate(x, rng));
+    let here = rng.chance(1, 3);
+    let v = match &t.variant {
+        Let(defs, body) if here => {
+            // drop the last definition, or append one, keeping the body
+            let mut d = defs.clone();
+            if !d.is_empty() && rng.chance(1, 2) { d.pop(); } else { d.push(("m", Rc::new(mk::int()), Rc::new(mk::lit(rng.range(0, 9))))); }
+            Let(d, body.clone())
+        }
+        IntegerLiteral(n) if here => IntegerLiteral(n + 1),
+        Variable(x, i) if here => Variable(x, i + 1),
+        Lambda(x, i, a, b) if here => Lambda(x, !*i, a.clone(), b.clone()),
+        Pi(x, i, a, b) if here => Pi(x, !*i, a.clone(), b.clone()),
+        Sum(a, b) if here => Sum(b.clone(), a.clone()),
+        Difference(a, b) if here => Difference(b.clone(), a.clone()),
+        LessThan(a, b) if here => LessThan(b.clone(), a.clone()),
+        If(c, a, b) if here => If(c.clone(), b.clone(), a.clone()),
+        Application(a, _) if here => Application(a.clone(), Rc::new(mk::lit(7))),
+        Lambda(x, i, a, b) => if rng.chance(1, 2) { Lambda(x, *i, r(a, rng), b.clone()) } else { Lambda(x, *i, a.clone(), r(b, rng)) },
+        Pi(x, i, a, b) => if rng.chance(1, 2) { Pi(x, *i, r(a, rng), b.clone()) } else { Pi(x, *i, a.clone(), r(b, rng)) },
+        Application(a, b) => if rng.chance(1, 2) { Application(r(a, rng), b.clone()) } else { Application(a.clone(), r(b, rng)) },
+        Let(defs, body) => {
+            if defs.is_empty() || rng.chance(1, 2) { Let(defs.clone(), r(body, rng)) } else {
+                let k = rng.below(defs.len());
+                let mut d = defs.clone();
+                d[k] = (d[k].0, d[k].1.clone(), r(&d[k].2, rng));
+                Let(d, body.clone())
+            }
+        }
+        Negation(a) => Negation(r(a, rng)),
+        Sum(a, b) => Sum(r(a, rng), b.clone()),
+        Difference(a, b) => Difference(a.clone(), r(b, rng)),
+        Product(a, b) => Product(r(a, rng), b.clone()),
+        Quotient(a, b) => Quotient(a.clone(), r(b, rng)),
+        LessThan(a, b) => LessThan(r(a, rng), b.clone()),
+        LessThanOrEqualTo(a, b) => LessThanOrEqualTo(a.clone(), r(b, rng)),
+        EqualTo(a, b) => EqualTo(r(a, rng), b.clone()),
+        GreaterThan(a, b) => GreaterThan(a.clone(), r(b, rng)),
+        GreaterThanOrEqualTo(a, b) => GreaterThanOrEqualTo(r(a, rng), b.clone()),
+        If(c, a, b) => If(c.clone(), r(a, rng), b.clone()),
+        True => False,
+        False => True,
+        Type => Integer,
+        Integer => Boolean,
+        Boolean => Type,
+        other => other.clone(),
+    };
+    Term { source_range: None, variant: v }
+}
+
 // does `cell` reach itself through solutions?
 fn reaches<'a>(t: &Term<'a>, target: &Cell<'a>, seen: &mut HashSet<usize>) -> bool {
     use Variant::*;
@@ -173,7 +226,8 @@ pub fn run(out: &mut Out, tier: &str, seed: u64) {
         let _ = &g2;
         let budget = 2 + rng.below(14);
         let t = safe(&g.make(&mut rng, budget, len));
-        match k % 4 {
+        match k % 5 {
+            4 => { let u = mutate(&t, &mut rng); unify_case(out, &mut names, &t, &u, &mut dctx, "near-miss", &[], None); let (mut ss2, _) = (StoreSer::new(), 0); let a2 = ss2.term(&mut names, &t); let b2 = ss2.term(&mut names, &u); let st2 = ss2.store(&mut names); out.case(&format!("syneq {st2} {a2} {b2}"), &format!("{}", syntactically_equal(&t, &u))); }
             0 => { let b2 = 2 + rng.below(10); let u = safe(&g.make(&mut rng, b2, len)); unify_case(out, &mut names, &t, &u, &mut dctx, "unrelated", &[], None); }
             1 => unify_case(out, &mut names, &t, &t, &mut dctx, "self", &[], Some(true)),
             _ => {
